@@ -96,6 +96,12 @@ def replay(rec, ctx):
     if abs(got - want) > 1e-9 * max(1.0, abs(want)):
         viol.append({"sig": f"admt:anisotropy-{'1' if c['a'] == 1 else 'gt1'}:{'curved' if curved else 'linear'}-flux-map:differs-from-div-D-grad",
                      "detail": f"grid {g}, cell ({c['ix']},{c['iy']}), psi {c['psi']}, f {c['p']}, anisotropy {c['a']}: operator gives {got!r}, exact {rec['num']}/{rec['den']} = {want!r}"})
+    # the flux map (integers at these cell centres) handed over as an integer array, the radii likewise: same operator
+    psi_i = np.array([int(round(q)) for q in psi], dtype=np.int64)
+    if np.array_equal(psi_i, psi):
+        row_i = calculate_admt(radii, ops, psi_i, float(g["dx"]), float(g["dy"]), anisotropy=c["a"])[i]
+        if not np.all(np.isfinite(row_i)) or abs(float(row_i @ f) - got) > 1e-9 * max(1.0, abs(got)):
+            viol.append({"sig": "admt:depends-on-the-dtype-of-the-flux-map", "detail": f"grid {g}, cell ({c['ix']},{c['iy']}), psi {c['psi']} as int64: {float(row_i @ f)!r} vs {got!r}"})
     for e in (-8, 8):               # GridOps.tla: FluxScaleExps
         row_s = calculate_admt(radii, ops, psi * 10.0 ** e, float(g["dx"]), float(g["dy"]), anisotropy=c["a"])[i]
         if not np.all(np.isfinite(row_s)) or abs(float(row_s @ f) - got) > 1e-8 * max(1.0, abs(got)):
